@@ -225,6 +225,21 @@ def run(c: Check):
                 ["di", {"t": "dict", "v": [["type", {"t": "int", "v": 1}]]}],
                 ["ds", {"t": "dict", "v": [["type", {"t": "str", "v": "x"}]]}]])]))
             root = len(d["nodes"]) - 1
+        elif c.rng.random() < 0.06:
+            # a plain dictionary that has a key named "value" (the wrapped form of a dictionary is {"type": "dict", "value": ...})
+            d["nodes"].append(dict(cls="Bag", kw=[c.rng.choice([
+                ["dd", {"t": "dict", "v": [["value", {"t": "dict", "v": [["lr", {"t": "int", "v": 1}]]}]]}],
+                ["di", {"t": "dict", "v": [["value", {"t": "int", "v": 5}], ["gamma", {"t": "int", "v": 9}]]}],
+                ["ds", {"t": "dict", "v": [["value", {"t": "str", "v": "x"}]]}]])]))
+            root = len(d["nodes"]) - 1
+        elif c.rng.random() < 0.08:
+            # a configuration that took over the task mark of an output through copy_dependencies, held by the root
+            k0 = len(d["nodes"])
+            d["nodes"] += [dict(cls="TaskOut", kw=[["x", {"t": "int", "v": c.rng.choice([1, 2, 3])}]]),
+                           dict(cls="Leaf", kw=[["i", {"t": "int", "v": 4}]]),
+                           dict(cls="Inner", kw=[["c", {"t": "ref", "n": k0 + 1}]])]
+            d["actions"].append(dict(a="copydeps", n=k0 + 1, out=k0))
+            root = k0 + 2
         cases.append(dict(desc=d, root=root))
     chunks = [cases[i::16] for i in range(16)]
 
